@@ -98,6 +98,25 @@ pub fn check(b: &Bound, c: &Case) -> Result<Option<String>, String> {
                     return Some(format!("writing the earlier archive fails: {e}"));
                 }
             }
+            4 => {
+                // an earlier archive that is much LONGER than the one written now (200 entries)
+                let other = BooleanNetwork::try_from("zz_old -| zz_old\n$zz_old: !zz_old\n").unwrap();
+                let go = get_extended_symbolic_graph(&other, 1).unwrap();
+                let mut old: HashMap<String, GraphColoredVertices> = (0..200).map(|i| (format!("formula-{i}"), if i % 2 == 0 { go.mk_unit_colored_vertices() } else { go.mk_empty_colored_vertices() })).collect();
+                if let Some((l, _)) = c.sets.first() {
+                    old.insert(l.clone(), go.mk_unit_colored_vertices());
+                }
+                if let Err(e) = build_result_archive(old, &path_s, other.to_string().as_str(), (0..200).map(|i| format!("OLD FORMULA {i}")).collect()) {
+                    return Some(format!("writing the earlier archive fails: {e}"));
+                }
+            }
+            5 => {
+                let _ = std::fs::create_dir_all(path.parent().unwrap());
+                let junk: Vec<u8> = (0..200_000u32).map(|i| (i.wrapping_mul(2654435761) >> 13) as u8).collect();
+                if std::fs::write(&path, junk).is_err() {
+                    return Some("cannot prepare the pre-existing file".into());
+                }
+            }
             2 | 3 => {
                 let _ = std::fs::create_dir_all(path.parent().unwrap());
                 if std::fs::write(&path, if c.prior == 2 { &b"this is not a zip archive, just a file that happens to be there\n"[..] } else { &b""[..] }).is_err() {
@@ -202,12 +221,44 @@ fn clone_shallow(b: &Bound, g: &SymbolicAsyncGraph) -> Bound {
 
 /// analyse_formulae writes entry `formula-i` for line i of formulae.txt.
 pub fn check_analysis(b: &Bound, formulas: &[String]) -> Option<String> {
+    check_analysis_print(b, formulas, None)
+}
+
+/// `print`: None = analyse_formulae in process with PrintOptions::NoPrint; Some(option) = the same analysis
+/// through the tool's binary with `-p <option>` (its output is captured), optionally over an existing longer
+/// archive at the output path.
+pub fn check_analysis_print(b: &Bound, formulas: &[String], print: Option<(&str, bool)>) -> Option<String> {
     let dir = tempfile::tempdir().ok()?;
     let path = dir.path().join("out.zip");
     let path_s = path.to_str().unwrap().to_string();
     let r = guarded(AssertUnwindSafe(|| -> Option<String> {
-        if let Err(e) = analyse_formulae(&b.bn, formulas.to_vec(), PrintOptions::NoPrint, Some(path_s.clone()), None) {
-            return Some(format!("analyse_formulae fails: {e}"));
+        match print {
+            None => {
+                if let Err(e) = analyse_formulae(&b.bn, formulas.to_vec(), PrintOptions::NoPrint, Some(path_s.clone()), None) {
+                    return Some(format!("analyse_formulae fails: {e}"));
+                }
+            }
+            Some((p, over_longer)) => {
+                let mpath = dir.path().join("model.aeon");
+                let fpath = dir.path().join("formulae.txt");
+                if std::fs::write(&mpath, b.bn.to_string()).is_err() || std::fs::write(&fpath, formulas.join("\n") + "\n").is_err() {
+                    return Some("harness: cannot write the input files".into());
+                }
+                if over_longer {
+                    let other = BooleanNetwork::try_from("zz_old -| zz_old\n$zz_old: !zz_old\n").unwrap();
+                    let go = get_extended_symbolic_graph(&other, 1).unwrap();
+                    let old: HashMap<String, GraphColoredVertices> = (0..200).map(|i| (format!("formula-{i}"), if i % 2 == 0 { go.mk_unit_colored_vertices() } else { go.mk_empty_colored_vertices() })).collect();
+                    if let Err(e) = build_result_archive(old, &path_s, other.to_string().as_str(), (0..200).map(|i| format!("OLD FORMULA {i}")).collect()) {
+                        return Some(format!("harness: writing the earlier archive fails: {e}"));
+                    }
+                }
+                match cli::run(&cli::checker_bin(), &[mpath.to_str().unwrap(), fpath.to_str().unwrap(), "-p", p, "-o", &path_s], None, 60.0) {
+                    Ok(out) if out.timed_out => return Some("the tool did not finish within 60 s".into()),
+                    Ok(out) if out.code != Some(0) => return Some(format!("the tool exits with {:?}: {}", out.code, crate::report::truncate(&out.stderr, 300))),
+                    Ok(_) => {}
+                    Err(e) => return Some(format!("harness: cannot run the tool: {e}")),
+                }
+            }
         }
         let entries = match cli::read_zip(&path) {
             Ok(e) => e,
@@ -370,6 +421,9 @@ pub fn replay(case: &Value) -> Option<String> {
     }
     if let Some(fs) = case.get("analysis") {
         let fs: Vec<String> = serde_json::from_value(fs.clone()).ok()?;
+        if let Some(p) = case.get("print").and_then(|p| p.as_str()) {
+            return check_analysis_print(&b, &fs, Some((p, case["over_longer"].as_bool().unwrap_or(false))));
+        }
         return check_analysis(&b, &fs);
     }
     let c = Case {
@@ -429,7 +483,7 @@ pub fn run(tier: &str) -> Result<Report, String> {
                         cases.push((b.clone(), Case { net: b.name.clone(), fmt: fmt.to_string(), k, sets: m.clone(), formulas: fl.clone(), prior: 0 }));
                         // histories of the target path: the same write over an earlier archive / a non-zip file / an empty file
                         if fmt == "aeon" {
-                            for prior in 1..=3u8 {
+                            for prior in 1..=5u8 {
                                 cases.push((b.clone(), Case { net: b.name.clone(), fmt: fmt.to_string(), k, sets: m.clone(), formulas: fl.clone(), prior }));
                             }
                         }
@@ -443,7 +497,7 @@ pub fn run(tier: &str) -> Result<Report, String> {
         .map(|(b, c)| match check(b, c) {
             Ok(Some(w)) => Some(Violation {
                 case: json!({"kind": "archive", "net": b.spec, "aeon": b.aeon, "fmt": c.fmt, "k": c.k, "sets": c.sets, "formulas": c.formulas, "prior": c.prior}),
-                what: format!("network {} via {} with k={}{}, labels {:?}, {} formula lines: {w}", c.net, c.fmt, c.k, ["", ", written over an earlier result archive at the same path", ", written over a non-zip file", ", written over an empty file"][c.prior as usize], c.sets.iter().map(|s| &s.0).collect::<Vec<_>>(), c.formulas.len()),
+                what: format!("network {} via {} with k={}{}, labels {:?}, {} formula lines: {w}", c.net, c.fmt, c.k, ["", ", written over an earlier result archive at the same path", ", written over a non-zip file", ", written over an empty file", ", written over a much longer earlier result archive (200 entries)", ", written over a 200 kB non-zip file"][c.prior as usize], c.sets.iter().map(|s| &s.0).collect::<Vec<_>>(), c.formulas.len()),
                 size: c.sets.len() + c.formulas.len(),
             }),
             _ => None,
@@ -474,6 +528,18 @@ pub fn run(tier: &str) -> Result<Report, String> {
             if let Some(w) = check_analysis(b, l) {
                 rep.violations.push(Violation { case: json!({"kind": "archive", "net": b.spec, "analysis": l}), what: format!("analyse_formulae archive on {} for {l:?}: {w}", b.name), size: l.len() });
             }
+            // the same analysis through the tool under every print option, on a fresh path and over a longer archive
+            for p in ["no-print", "summary", "with-progress", "exhaustive"] {
+                for over in [false, true] {
+                    if l.is_empty() {
+                        continue;
+                    }
+                    rep.evaluations += 1;
+                    if let Some(w) = check_analysis_print(b, l, Some((p, over))) {
+                        rep.violations.push(Violation { case: json!({"kind": "archive", "net": b.spec, "analysis": l, "print": p, "over_longer": over}), what: format!("result archive of the tool (-p {p}{}) on {} for {l:?}: {w}", if over { ", output path holds a longer earlier archive" } else { "" }, b.name), size: l.len() + 1 });
+                    }
+                }
+            }
         }
     }
     // the archive -> analysis -> archive chain with context sets inside and outside the valid colours
@@ -484,6 +550,6 @@ pub fn run(tier: &str) -> Result<Report, String> {
         }
     }
     rep.sample(json!({"network": "con2", "format": "sbml", "k": 2, "labels": ["a", "x_1", "A.b", "formula-0"], "formulae_lines": 3}));
-    rep.rule = format!("networks {which:?} x input format (aeon, aeon with reversed line order, sbml, bnet where the format reproduces the network exactly) x k in {ks:?} x 7 label->set maps (empty map, empty set, unit set, colour-dependent/empty-for-some-colours/colour-disjoint family sets, raw results; labels formula-0, a, x_1, A.b, run.2.fixed, 'dom 1', x-y, é_2, BDD, a.bdd, nested labels zz/p 0/p dir/sub/q next to p, s0..) x 4 formula lists (0-3 lines) x (aeon) 4 histories of the target path (fresh, an earlier result archive of another model with other formulae and overlapping + additional labels, a non-zip file, an empty file): build_result_archive -> independent unzip (entry list exact, formulae.txt lines) -> model.aeon re-parsed, symbolic context compared by variable names -> load_bdd_bundle (for k >= 1 the map also holds sets that depend on the spare variable sets, compared as BDDs) -> every set compared point-wise on all (state, valid colour) pairs and as BDD -> reloaded sets used as wild-card/domain context of three extended formulae; plus analyse_formulae archives: entry formula-i equals the result of line i; plus the chain context archive -> analyse_formulae -> result archive with context sets inside and outside the valid colours (whole symbolic space, raw state variable) vs evaluation with the in-memory sets. distinct_nontrivial = round-trip cases with at least one set");
+    rep.rule = format!("networks {which:?} x input format (aeon, aeon with reversed line order, sbml, bnet where the format reproduces the network exactly) x k in {ks:?} x 7 label->set maps (empty map, empty set, unit set, colour-dependent/empty-for-some-colours/colour-disjoint family sets, raw results; labels formula-0, a, x_1, A.b, run.2.fixed, 'dom 1', x-y, é_2, BDD, a.bdd, nested labels zz/p 0/p dir/sub/q next to p, s0..) x 4 formula lists (0-3 lines) x (aeon) 6 histories of the target path (fresh, an earlier result archive of another model with other formulae and overlapping + additional labels, a non-zip file, an empty file, a much longer earlier archive with 200 entries, a 200 kB non-zip file): build_result_archive -> independent unzip (entry list exact, formulae.txt lines) -> model.aeon re-parsed, symbolic context compared by variable names -> load_bdd_bundle (for k >= 1 the map also holds sets that depend on the spare variable sets, compared as BDDs) -> every set compared point-wise on all (state, valid colour) pairs and as BDD -> reloaded sets used as wild-card/domain context of three extended formulae; plus analyse_formulae archives (in process, and through the tool under each of the four print options, on a fresh output path and over a much longer earlier archive): entry formula-i equals the result of line i; plus the chain context archive -> analyse_formulae -> result archive with context sets inside and outside the valid colours (whole symbolic space, raw state variable) vs evaluation with the in-memory sets. distinct_nontrivial = round-trip cases with at least one set");
     Ok(rep)
 }
